@@ -109,7 +109,7 @@ _DEPTH = re.compile(r'The depth of the complete state graph search is (\d+)')
 
 
 def tlc(module, cfg, workers=8, timeout=1800, simulate=None, seed=None, env=None, cache=True, jvm=None, coverage=False,
-        deadlock=False, allow_fail=False):
+        deadlock=False, allow_fail=False, depth=None):
     """Run TLC on spec/<module>.tla with spec/<cfg> (a file name or literal cfg text).
     Returns dict(out=path, states=distinct, transitions=generated, depth, cached, wall_s).
     TLC's result depends only on the specification, never on /repo, so complete runs are cached
@@ -121,7 +121,7 @@ def tlc(module, cfg, workers=8, timeout=1800, simulate=None, seed=None, env=None
         cfg_text = cfg
         cfg_path = None
     extra = {'workers': workers if simulate else 0, 'simulate': simulate, 'seed': seed if simulate else None,
-             'env': {k: (hashlib.sha256(open(v, 'rb').read()).hexdigest() if os.path.isfile(v) else v)
+             'depth': depth, 'env': {k: (hashlib.sha256(open(v, 'rb').read()).hexdigest() if os.path.isfile(v) else v)
                      for k, v in (env or {}).items()}, 'jvm': jvm, 'cov': coverage}
     key = _spec_digest(module, cfg_text, extra)
     cdir = os.path.join(CACHE, 'tlc', f'{module}-{key}')
@@ -145,6 +145,8 @@ def tlc(module, cfg, workers=8, timeout=1800, simulate=None, seed=None, env=None
         cmd += ['-coverage', '1']
     if simulate:
         cmd += ['-simulate', simulate]
+        if depth:
+            cmd += ['-depth', str(depth)]
         if seed is not None:
             cmd += ['-seed', str(seed)]
     cmd += ['-config', cfg_path, os.path.join(SPEC, module + '.tla')]
